@@ -7,6 +7,8 @@ print('| seed | property | change | needs, to manifest | caught by (rule: first 
 print('|---|---|---|---|---|')
 tot = own = anyd = obs = 0
 for d in sorted(os.listdir(root)):
+    if not os.path.exists(os.path.join(root, d, 'meta.json')):
+        continue
     m = json.load(open(os.path.join(root, d, 'meta.json')))
     det = m.get('detected_by', {})
     if m.get('obsolete'):
@@ -23,7 +25,7 @@ for d in sorted(os.listdir(root)):
             if r not in rules:
                 rules.append(r)
         cells.append(p + ' ' + ','.join(rules))
-    esc = lambda s: re.sub(r'\s+', ' ', s or '').replace('|', '\\|')
+    esc = lambda s: (lambda t: t if len(t) <= 220 else t[:217] + '...')(re.sub(r'\s+', ' ', s or '').replace('|', '\\|'))
     print('| %s | %s | %s | %s | %s |' % (d, m['property'], esc(m.get('change')), esc(m.get('needs_to_manifest')), '; '.join(cells) or ('no longer applies: ' + m['obsolete'][:80] if m.get('obsolete') else '**not caught**')))
 print()
 print('%d seeded changes that apply to the current tree (%d more no longer compile on it); %d caught by the check of their own property, %d by some check.' % (tot, obs, own, anyd))
